@@ -42,6 +42,19 @@ CHECKS = [
            "points_inside_polygon (plain + exact variants) and cells_inside_polygon; random 3-12 vertex polygons are validated by PolygonTrace.tla.",
       note="integer lattice coordinates, exactly representable translations/scalings; boundary points excluded exactly",
       technique=TLA),
+ dict(property_id="C06", category="model_checking", design_ref="3.3",
+      text="FlowGrid.tla: TLC checks the models of c_upstream/c_downstream/c_delineate_area (layered two-buffer expansion) against the graph "
+           "definitions (inverse relation, upstream reachability with inlets, no duplicates) on every grid of the exhaustive shapes; every grid is "
+           "replayed through Catchment.upstream/downstream/delineate_area/compute_flowpathlengths and delineate_river; random larger grids are "
+           "validated by FlowGridTrace.tla.",
+      note="cyclic catchments only required to terminate (watchdog) with an error or a bounded list; lengths in Z[sqrt2]",
+      technique=TLA),
+ dict(property_id="C11", category="model_checking", design_ref="3.4",
+      text="FlowGrid.tla: TLC checks the capped downstream-walk model of c_accumulate against the upstream-closure sum on every acyclic grid of the "
+           "exhaustive shapes for unit, 10^cell and signed fields; every grid is replayed through accumulate (default and explicit fields, inputs "
+           "compared before/after); random grids/fields validated by FlowGridTrace.tla.",
+      note="integer-valued fields; cyclic grids only required to terminate",
+      technique=TLA),
 ]
 
 _PENDING = "check not built yet in this round; see DESIGN.md section 3 for the planned specification"
